@@ -40,7 +40,7 @@ var layouts = []geom.Layout{geom.XY, geom.XYZ, geom.XYM, geom.XYZM, geom.Layout(
 func genCase(t *rapid.T) Case {
 	what := rapid.SampledFrom([]string{"geom", "geom", "geom", "geom", "coord", "bounds"}).Draw(t, "what")
 	c := Case{What: what}
-	o := gen.TreeOpts{Layouts: layouts, Kinds: []string{model.MultiPolygon, model.MultiPolygon, model.Polygon, model.MultiLineString, model.MultiPoint, model.LineString, model.LinearRing, model.Point}, Floats: gen.AllBits, MaxParts: 3, MaxPts: 4, PEmpty: 25, SRID: gen.SRIDs}
+	o := gen.TreeOpts{Layouts: layouts, Kinds: []string{model.MultiPolygon, model.MultiPolygon, model.Polygon, model.MultiLineString, model.MultiPoint, model.LineString, model.LinearRing, model.Point}, Floats: gen.AllBits, MaxParts: 3, MaxPts: 4, PEmpty: 25, SRID: gen.SRIDs, LongPct: 1, LongMax: 150}
 	switch what {
 	case "geom":
 		c.G = *gen.Tree(t, o)
